@@ -173,12 +173,12 @@ def spec_check(cfg: dict, out: dict) -> list[tuple[str, str]]:
             v.append(("transpile-only-raised", f"upload=False raised {exc}: {out.get('exc_msg')}"))
     else:
         want_runs = [["pio", "run"]]
-        if faults.get("build") == "fail":
+        if faults.get("build") in ("fail", "signal"):
             if not (outcome == "raised" and exc == "CalledProcessError"):
                 v.append(("build-failure-swallowed", f"failed build: {outcome} {exc}"))
         else:
             want_runs.append(["pio", "run", "-t", "upload"])
-            if faults.get("upload") == "fail":
+            if faults.get("upload") in ("fail", "signal"):
                 if not (outcome == "raised" and exc == "CalledProcessError"):
                     v.append(("upload-failure-swallowed", f"failed upload: {outcome} {exc}"))
             elif outcome != "returned":
@@ -188,8 +188,8 @@ def spec_check(cfg: dict, out: dict) -> list[tuple[str, str]]:
         for r in real_runs:
             if pdirs and r[2] != pdirs[0]:
                 v.append(("pio-cwd", f"pio run with cwd={r[2]}, project dir {pdirs[0]}"))
-            if not r[3]:
-                v.append(("pio-check", "pio invoked without check=True (failure would be swallowed)"))
+            # (how a failing exit status is turned into an exception - check=True or an explicit test - is not prescribed: the
+            # "fail" (exit 1) and "signal" (killed, negative status) fault values judge the behaviour)
     if outcome == "returned":
         if not out.get("ret_is_str") or out.get("ret") != exp_cpp:
             v.append(("return-value", "target() did not return emit(parse(script text))"))
@@ -208,7 +208,7 @@ def main() -> int:
     rng = rng_for(PROP, sd)
     fault_axes = {
         "pio": ["ok", "missing", "fail", "permission", "oserror"], "mkdtemp": ["ok", "oserror"], "write_main": ["ok", "oserror"],
-        "write_ini": ["ok", "oserror"], "build": ["ok", "fail"], "upload": ["ok", "fail"],
+        "write_ini": ["ok", "oserror"], "build": ["ok", "fail", "signal"], "upload": ["ok", "fail", "signal"],
     }
     cases = []
     ports = ["COM3", "/dev/ttyACM0", "/dev/tty.usb-1", "COM=9"]
